@@ -608,14 +608,46 @@ func (in *Instance) getAlertsFiltered(f GetFlags) ([]APIAlert, bool) {
 	return out, true
 }
 
+// normGroups: a GET /alerts/groups body with the inhibiting alerts' identities blanked and silencedBy sorted.
+func normGroups(body []byte) string {
+	var gs []map[string]any
+	if json.Unmarshal(body, &gs) != nil {
+		return string(body)
+	}
+	for _, g := range gs {
+		as, _ := g["alerts"].([]any)
+		for _, a := range as {
+			am, _ := a.(map[string]any)
+			st, _ := am["status"].(map[string]any)
+			if st == nil {
+				continue
+			}
+			if ib, _ := st["inhibitedBy"].([]any); len(ib) > 0 {
+				st["inhibitedBy"] = "some"
+			}
+			if sb, _ := st["silencedBy"].([]any); len(sb) > 1 {
+				ss := make([]string, len(sb))
+				for i, x := range sb {
+					ss[i] = fmt.Sprint(x)
+				}
+				sort.Strings(ss)
+				st["silencedBy"] = ss
+			}
+		}
+	}
+	out, _ := json.Marshal(gs)
+	return string(out)
+}
+
 func (in *Instance) getGroups() ([]APIGroup, []DispGroup) {
 	code, resp := in.do("GET", "/alerts/groups?active=true&silenced=true&inhibited=true&muted=true", nil)
 	if code != 200 {
 		in.sim.errf("GET /alerts/groups -> %d %s", code, resp)
 		return nil, nil
 	}
-	// a read changes nothing: the same request again, at the same instant, is answered the same
-	if code2, resp2 := in.do("GET", "/alerts/groups?active=true&silenced=true&inhibited=true&muted=true", nil); code2 != 200 || !bytes.Equal(resp, resp2) {
+	// a read changes nothing: the same request again, at the same instant, is answered the same (which of several
+	// inhibiting alerts is named is the inhibitor's free choice per evaluation: only "some" or "none" is compared)
+	if code2, resp2 := in.do("GET", "/alerts/groups?active=true&silenced=true&inhibited=true&muted=true", nil); code2 != 200 || normGroups(resp) != normGroups(resp2) {
 		in.sim.errf("GET /alerts/groups twice at the same instant: first answer %s, second answer (%d) %s", resp, code2, resp2)
 	}
 	var gs []struct {
